@@ -177,6 +177,9 @@ func wellFormed(p *world.Plan) bool {
 
 // Gen builds a history.
 func (W) Gen(prop string, seed uint64, tier string) *world.Plan {
+	if seed%17 == 5 {
+		return genDuo(prop, seed)
+	}
 	r := rng.Derive(seed, 0x1fac)
 	p := &world.Plan{Prop: prop, World: "iface", Seed: seed}
 	p.Sched.GCPermille = []int{0, 40, 150, 400}[r.Intn(4)]
@@ -636,6 +639,10 @@ func (x *exec) step(op world.Op) {
 
 // Exec runs the plan.
 func (W) Exec(p *world.Plan, env *world.Env) {
+	if p.Knobs["duo"] == 1 {
+		execDuo(p, env)
+		return
+	}
 	if !wellFormed(p) {
 		env.Res.Verdict = "invalid"
 		return
@@ -690,4 +697,111 @@ func (W) Exec(p *world.Plan, env *world.Env) {
 		}
 	}
 	env.Res.Nontriv = nm >= 2 || res.Stats.GC > 0
+}
+
+// ---- "duo": two tasks, each with its own builder and its own variable of one interface type, mock
+// the same method with the SAME replacement function value while anonymous executable mappings are
+// unavailable (every stub then comes from the built-in reserve and is written through
+// memory.WriteTo, whose seams let the other task run between "space acquired" and "stub written").
+// Different variables are mocked independently (C07), also from different goroutines (C11).
+
+func genDuo(prop string, seed uint64) *world.Plan {
+	r := rng.Derive(seed, 0xd00)
+	p := &world.Plan{Prop: prop, World: "iface", Seed: seed, Knobs: map[string]int{"duo": 1}}
+	t := r.Intn(len(ifc.Ifaces))
+	p.Knobs["dt"] = t
+	p.Knobs["dm"] = r.Intn(len(ifc.Ifaces[t].Methods))
+	p.Sched.Permille = []int{300, 600, 1000}[r.Intn(3)]
+	p.Sched.FaultPermille = map[string]int{"mmap": 1000}
+	p.Sched.FaultKinds = map[string][]int{"mmap": {simcore.FaultEACCES, simcore.FaultENOMEM}}
+	p.Sched.MaxFaults = 1 << 20
+	p.Sched.MaxSteps = 100000
+	for ti := 0; ti < 2; ti++ {
+		ops := []world.Op{{K: "dapply"}}
+		for i, n := 0, 1+r.Intn(3); i < n; i++ {
+			ops = append(ops, world.Op{K: "dcall", W: r.U64()})
+		}
+		if r.Chance(300) {
+			ops = append(ops, world.Op{K: "dapply"}, world.Op{K: "dcall", W: r.U64()})
+		}
+		p.Tasks = append(p.Tasks, world.Task{Role: "imocker", Ops: ops})
+	}
+	return p
+}
+
+func execDuo(p *world.Plan, env *world.Env) {
+	t, mi := p.Knobs["dt"], p.Knobs["dm"]
+	if len(p.Tasks) != 2 || t < 0 || t >= len(ifc.Ifaces) || mi < 0 || mi >= len(ifc.Ifaces[t].Methods) {
+		env.Res.Verdict = "invalid"
+		return
+	}
+	ifc.ResetVars()
+	defer ifc.ResetVars()
+	it := ifc.Ifaces[t]
+	m := it.Methods[mi]
+	r := rng.Derive(p.Seed, 77)
+	res := make([]interface{}, m.Typ.NumOut())
+	for i := range res {
+		res[i] = val.Gen(r, m.Typ.Out(i))
+	}
+	rec := &ifc.Rec{Results: res}
+	cb := m.Mk(rec) // ONE function value, handed to both builders
+	var tasks []func()
+	for ti := range p.Tasks {
+		ti := ti
+		tasks = append(tasks, func() {
+			b := mocker.Create()
+			v := it.Vars[ti]
+			before := words(v)
+			at := func(i int, op world.Op) string {
+				return fmt.Sprintf("imocker%d op#%d %s %s.%s", ti, i, op.K, it.Name, m.Name)
+			}
+			for i, op := range p.Tasks[ti].Ops {
+				simcore.Yield(simcore.SiteOp, uintptr(i))
+				switch op.K {
+				case "dapply":
+					if pv := catch(func() { b.Interface(v).Method(m.Name).Apply(cb) }); pv != nil {
+						env.FailAt(at(i, op), "iface/apply-panic", "Apply of a well-formed interface mock panicked: %v", pv)
+					}
+				case "dcall":
+					ar := rng.Derive(op.W, 8)
+					args := make([]interface{}, m.Typ.NumIn()-1)
+					for k := range args {
+						args[k] = val.Gen(ar, m.Typ.In(k+1))
+					}
+					var got []interface{}
+					if pv := catch(func() { got = m.Call(v, args) }); pv != nil {
+						env.FailAt(at(i, op), "iface/panic", "mocked %s#%d.%s panicked: %v", it.Name, ti, m.Name, pv)
+					}
+					env.Check()
+					for k := range res {
+						if k < len(got) && !val.Same(got[k], res[k], false) {
+							env.FailAt(at(i, op), "iface/dispatch", "%s#%d.%s returned %s, its replacement returns %s (another builder mocks another variable with the same replacement)", it.Name, ti, m.Name, val.ShowList(got), val.ShowList(res))
+						}
+					}
+				default:
+					env.FailAt(at(i, op), "harness/op", "unknown op %s", op.K)
+				}
+				env.Op()
+			}
+			if pv := catch(func() { b.Reset() }); pv != nil {
+				env.FailAt(fmt.Sprintf("imocker%d reset", ti), "iface/reset-panic", "Builder.Reset panicked: %v", pv)
+			}
+			if w := words(v); w != before {
+				env.FailAt(fmt.Sprintf("imocker%d reset", ti), "iface/restore", "after Reset variable %s#%d holds %x, want %x", it.Name, ti, w, before)
+			}
+		})
+	}
+	runRes := simcore.Run(p.SchedConfig(), tasks)
+	env.Res.Merge(runRes)
+	for i, pv := range runRes.Panics[:len(tasks)] {
+		if pv != nil {
+			if _, ok := pv.(world.Failure); !ok && !env.Failed() {
+				env.Res.At = fmt.Sprintf("imocker%d", i)
+				env.FailNoUnwind("crash/panic", "imocker%d: unexpected panic: %v", i, pv)
+			}
+		}
+	}
+	env.Res.Nontriv = runRes.Stats.Switches > 0
+	env.Probe("two_builders_same_replacement_reserve_stubs")
 }
